@@ -93,7 +93,7 @@ class C16Check:
     def floors(self, tier):
         return scaled_floors("C16", ["C16.member_help_ok", "C16.handshake_ok", "C16.private_rejected", "C16.command_set_exact", "C16.socket_clients_ok",
                                      "C19.handshake_while_other_pending", "C16.member_runs_ok", "C16.member_runs_ok.static", "C16.served_again", "C16.client_parked_meanwhile", "C16.socket_probe_ok",
-                                     "C16.tiny_widths_identical"], tier, 25)
+                                     "C16.tiny_widths_identical", "C16.help_stable_with_other_width"], tier, 25)
 
     def timeout(self, tier):
         return 900 if tier == "quick" else 7200
@@ -153,7 +153,7 @@ class C18Check:
 
     def floors(self, tier):
         return scaled_floors("C18", ["C18.lines.invalid", "C18.lines.junk", "C18.lines.mutant", "C18.lines.help", "C18.lines.valid",
-                                     "C18.probe_ok", "C18.isolation_ok", "C18.short_after_long", "C18.waiting_released", "C18.socket_probe_ok", "C18.socket_client_left", "C18.socket_reply_after_stop", "C18.pipelined_spawn_cancel", "C18.pool_shrunk_below_running"], tier, 50)
+                                     "C18.probe_ok", "C18.isolation_ok", "C18.short_after_long", "C18.waiting_released", "C18.socket_probe_ok", "C18.socket_client_left", "C18.socket_reply_after_stop", "C18.pipelined_spawn_cancel", "C18.pool_shrunk_below_running", "C18.direct_waiter_gave_up"], tier, 50)
 
     def timeout(self, tier):
         return 900 if tier == "quick" else 7200
